@@ -1,8 +1,295 @@
-// Oracles part 3: C09, C15, C18, C19
+// Oracles part 3: C09 (async_disconnect), C15 (capabilities), C18 (decoding of well-formed
+// broker packets as surfaced by the API), C19 (hostile bytes: witness for every success).
 #include "oracle_ctx.hpp"
+
 namespace app {
-void Ctx::c09() {}
-void Ctx::c15() {}
-void Ctx::c18() {}
-void Ctx::c19() {}
+
+namespace {
+uint32_t prop_num(const Props& p, uint8_t id, uint32_t dflt) { auto* x = find_prop(p, id); return x ? x->num : dflt; }
+bool has_prop(const Props& p, uint8_t id) { return find_prop(p, id) != nullptr; }
+
+bool is_client_ec(const error_code& ec, int v) { return ec.value() == v && std::string(ec.category().name()) == "mqtt_client_error"; }
 }
+
+// ------------------------------------------------------------------ C09
+void Ctx::c09() {
+    auto& B = s.broker;
+    for (auto& D : s.ops) {
+        if (D.kind != OpKind::disconnect || D.dones.empty()) continue;
+        const Done& dd = D.dones[0];
+        if (is_client_ec(dd.c.ec, 100)) continue;      // rejected by validation: nothing happens
+        // (1) completes within 5 s of initiation, reachable broker or not
+        ns_t dur = dd.t - D.init_t;
+        ns_t slack = stall_between(D.init_seq, dd.seq);
+        bool resolve_pending = false;
+        for (auto& r : s.resolver.log) if (r.seq < dd.seq && (r.seq_done == 0 || r.seq_done > D.init_seq)) resolve_pending = true;
+        // a resolve that cannot be cancelled (like the real resolver) and was still running at the 5 s limit
+        bool resolve_at_limit = false;
+        for (auto& r : s.resolver.log) if (r.t <= D.init_t + 5 * SEC + slack && (r.seq_done == 0 || r.t_done > D.init_t + 5 * SEC)) resolve_at_limit = true;
+        if (dur > 5 * SEC + slack && !D.caller_cancelled)
+            fail("C09", resolve_at_limit ? "disconnect_slower_than_5s_behind_resolve" : "disconnect_slower_than_5s",
+                 opstr(D) + " completed " + std::to_string(dur / 1000000) + " ms after initiation" + (resolve_at_limit ? " (an uncancellable name resolution was still running at the 5 s limit)" : ""));
+        (void)resolve_pending;
+        // window in which only this (old) service can be active: until completion or until the application runs the client again
+        uint64_t win_end = dd.seq;
+        uint64_t next_run = UINT64_MAX;
+        for (auto& m : s.marks) if (m.kind == MarkKind::run && m.seq > D.init_seq) { next_run = m.seq; break; }
+        win_end = std::min(win_end, next_run);
+        // DISCONNECT expected on the wire: reason code and properties as given; properties dropped iff the packet would be too large
+        Packet expect; expect.type = DISCONNECT; expect.rc = D.rc; expect.props = D.props;
+        uint32_t maxp = prop_num(D.connack_snapshot, P_MAX_PACKET, 268435460u);
+        bool too_large = encode(expect).size() > maxp;
+        // (3) every post-handshake write begun after initiation carries exactly the DISCONNECT, and nothing follows it on that connection
+        for (auto& g : s.net.groups) {
+            if (g.seq_start <= D.init_seq || g.seq_start > win_end) continue;
+            std::vector<const bk::RecvPkt*> pk;
+            bool handshake = false;
+            for (auto& r : B.recv) if (r.conn == g.conn && r.first_group == g.id) { pk.push_back(&r); if (r.during_handshake) handshake = true; }
+            if (pk.empty() || handshake) continue;       // content unknown (never arrived) or CONNECT/AUTH of a reconnect
+            if (conn_hostile(g.conn)) continue;
+            if (other_gen_active(D.svc_gen, g.seq_start)) continue;      // may be another service object's traffic
+            bool ok = pk.size() == 1 && pk[0]->decode_err.empty() && pk[0]->pkt.type == DISCONNECT;
+            if (!ok) {
+                std::string what; for (auto* r : pk) what += std::string(r->decode_err.empty() ? ptype_name(r->pkt.type) : "undecodable") + " ";
+                fail("C09", "other_packet_after_disconnect_initiated", opstr(D) + ": a write begun at seq " + std::to_string(g.seq_start) + " on connection " + std::to_string(g.conn) +
+                     " after async_disconnect was initiated carries: " + what);
+                continue;
+            }
+            const Packet& p = pk[0]->pkt;
+            // internally generated DISCONNECTs (malformed packet, sentry) may already be queued: only the reason code given by the caller is judged
+            if (p.rc != D.rc && (p.rc == 0x81 || p.rc == 0x80 || p.rc == 0x82)) continue;
+            if (p.rc != D.rc)
+                fail("C09", "disconnect_reason_code", opstr(D) + ": DISCONNECT on the wire has reason code " + std::to_string(p.rc) + ", given " + std::to_string(D.rc));
+            else if (too_large ? !p.props.empty() : !props_equal(p.props, D.props))
+                fail("C09", "disconnect_properties", opstr(D) + ": DISCONNECT on the wire has properties " + props_str(p.props) + ", given " + props_str(D.props) +
+                     (too_large ? " (must be dropped: larger than Maximum Packet Size " + std::to_string(maxp) + ")" : ""));
+            for (auto& g2 : s.net.groups)
+                if (g2.conn == g.conn && g2.seq_start > g.seq_start && g2.seq_start <= win_end)
+                    fail("C09", "write_after_disconnect", opstr(D) + ": connection " + std::to_string(g.conn) + " saw another write (seq " + std::to_string(g2.seq_start) +
+                         ") after the DISCONNECT packet (seq " + std::to_string(g.seq_start) + ")");
+        }
+        // (4) silence after completion until async_run is called again
+        uint64_t quiet_end = next_run;
+        for (auto& m : s.marks) if ((m.kind == MarkKind::recreate || m.kind == MarkKind::teardown_begin) && m.seq > dd.seq && m.seq < quiet_end) quiet_end = m.seq;
+        // an uncancellable resolve that was running when the disconnect finished may still complete; nothing may follow it
+        for (auto& g : s.net.groups)
+            if (g.seq_start > dd.seq && g.seq_start < quiet_end && !other_gen_active(D.svc_gen, g.seq_start))
+                fail("C09", "write_after_completion", opstr(D) + " completed at seq " + std::to_string(dd.seq) + " but the client wrote again at seq " + std::to_string(g.seq_start));
+        for (auto& c : s.net.conns)
+            if (c->seq_begin > dd.seq && c->seq_begin < quiet_end && !other_gen_active(D.svc_gen, c->seq_begin))
+                fail("C09", "connect_after_completion", opstr(D) + " completed at seq " + std::to_string(dd.seq) + " but connection attempt " + std::to_string(c->id) + " started at seq " + std::to_string(c->seq_begin));
+        for (auto& r : s.resolver.log)
+            if (r.seq > dd.seq && r.seq < quiet_end && !other_gen_active(D.svc_gen, r.seq))
+                fail("C09", "resolve_after_completion", opstr(D) + " completed at seq " + std::to_string(dd.seq) + " but a resolve started at seq " + std::to_string(r.seq));
+    }
+}
+
+// ------------------------------------------------------------------ C15
+void Ctx::c15() {
+    auto& B = s.broker;
+    for (auto& o : s.ops) {
+        if (o.kind != OpKind::publish && o.kind != OpKind::subscribe && o.kind != OpKind::unsubscribe) continue;
+        if (!o.has_connack) continue;        // the statement covers requests initiated while the client holds a CONNACK
+        const Props& cp = o.connack_snapshot;
+        std::set<int> F;                     // applicable documented errors
+        uint32_t maxp = prop_num(cp, P_MAX_PACKET, 268435460u);
+        Packet pk;
+        if (o.kind == OpKind::publish) {
+            pk.type = PUBLISH; pk.qos = o.qos; pk.retain = o.retain; pk.topic = o.topic; pk.payload = o.payload; pk.props = o.props; pk.pid = 1;
+            if ((uint32_t)o.qos > prop_num(cp, P_MAX_QOS, 2)) F.insert(105);
+            if (o.retain && prop_num(cp, P_RETAIN_AVAIL, 1) == 0) F.insert(106);
+            if (auto* a = find_prop(o.props, P_TOPIC_ALIAS)) {
+                uint32_t am = prop_num(cp, P_TOPIC_ALIAS_MAX, 0);
+                if (am == 0 || a->num > am) F.insert(107);
+            }
+        } else if (o.kind == OpKind::subscribe) {
+            pk.type = SUBSCRIBE; pk.subs = o.subs; pk.props = o.props; pk.pid = 1;
+            bool wild_ok = prop_num(cp, P_WILDCARD_AVAIL, 1) != 0, shared_ok = prop_num(cp, P_SHARED_AVAIL, 1) != 0, subid_ok = prop_num(cp, P_SUBID_AVAIL, 1) != 0;
+            for (auto& t : o.subs) {
+                bool shared = t.filter.rfind("$share/", 0) == 0;
+                bool wild = t.filter.find_first_of("#+") != std::string::npos;
+                if (shared && !shared_ok) F.insert(110);
+                if (wild && !wild_ok) F.insert(108);
+            }
+            if (has_prop(o.props, P_SUB_ID) && !subid_ok) F.insert(109);
+        } else {
+            pk.type = UNSUBSCRIBE; pk.unsubs = o.topics; pk.props = o.props; pk.pid = 1;
+        }
+        if (encode(pk).size() > maxp) F.insert(101);
+        const Done* d = done(o);
+        auto& receipts = o.kind == OpKind::publish ? pub_receipts : o.kind == OpKind::subscribe ? sub_receipts : unsub_receipts;
+        bool on_wire = receipts.count(o.id) && !receipts[o.id].empty();
+        if (!F.empty()) {
+            std::string fs; for (int f : F) fs += std::to_string(f) + " ";
+            if (on_wire)
+                fail("C15", "forbidden_request_on_wire", opstr(o) + " is forbidden by the CONNACK held at initiation (applicable errors " + fs + ") but was transmitted: " +
+                     packet_str(B.recv[receipts[o.id].front()].pkt));
+            if (d) {
+                bool cap_err = false; for (int f : F) if (is_client_ec(d->c.ec, f)) cap_err = true;
+                // other validation errors (invalid topic, malformed properties) may legitimately win
+                bool other_validation = is_client_ec(d->c.ec, 100) || is_client_ec(d->c.ec, 104) || is_client_ec(d->c.ec, 103);
+                if (!cap_err && !other_validation)
+                    fail("C15", "forbidden_request_not_rejected", opstr(o) + " is forbidden by the CONNACK held at initiation (applicable errors " + fs + ") but completed with " +
+                         d->c.ec.category().name() + ":" + std::to_string(d->c.ec.value()));
+                if ((cap_err || other_validation) && d->t - o.init_t > stall_between(o.init_seq, d->seq))
+                    fail("C15", "rejection_not_immediate", opstr(o) + " was rejected " + std::to_string((d->t - o.init_t) / 1000) + " us after initiation, not immediately");
+            }
+        } else if (d) {
+            for (int f : {101, 105, 106, 107, 108, 109, 110})
+                if (is_client_ec(d->c.ec, f))
+                    fail("C15", "allowed_request_rejected", opstr(o) + " respects every capability of the CONNACK held at initiation (" + props_str(cp) + ") but was rejected with mqtt_client_error:" +
+                         std::to_string(f) + " (encoded size " + std::to_string(encode(pk).size()) + ")");
+        }
+    }
+    // wire side: every packet respects the capabilities of the connection it travels on, when the request was
+    // initiated under an identical capability set
+    auto caps_of = [](const Props& p) {
+        Props r; for (auto& x : p) if (x.id == P_MAX_PACKET || x.id == P_MAX_QOS || x.id == P_RETAIN_AVAIL || x.id == P_TOPIC_ALIAS_MAX || x.id == P_WILDCARD_AVAIL || x.id == P_SUBID_AVAIL || x.id == P_SHARED_AVAIL) r.push_back(x);
+        std::sort(r.begin(), r.end()); return r;
+    };
+    for (auto& r : B.recv) {
+        if (!r.decode_err.empty() || r.during_handshake) continue;
+        auto* bc = B.bc(r.conn);
+        if (!bc || bc->connack_sent_idx < 0) continue;
+        Props cc = caps_of(bc->caps.to_props());
+        int op = -1;
+        if (r.pkt.type == PUBLISH) op = op_of_topic(r.pkt.topic);
+        else if (r.pkt.type == SUBSCRIBE && !r.pkt.subs.empty()) op = op_of_filter(r.pkt.subs[0].filter, sub_op_by_step);
+        else continue;
+        if (op < 0 || !s.ops[op].has_connack || !(caps_of(s.ops[op].connack_snapshot) == cc)) continue;
+        uint32_t maxp = prop_num(cc, P_MAX_PACKET, 268435460u);
+        if (r.pkt.raw.size() > maxp)
+            fail("C15", "packet_exceeds_maximum_packet_size", "conn " + std::to_string(r.conn) + ": " + ptype_name(r.pkt.type) + " of " + std::to_string(r.pkt.raw.size()) + " bytes exceeds the announced Maximum Packet Size " + std::to_string(maxp));
+        if (r.pkt.type == PUBLISH) {
+            if (r.pkt.qos > prop_num(cc, P_MAX_QOS, 2)) fail("C15", "qos_exceeds_maximum", "conn " + std::to_string(r.conn) + ": PUBLISH QoS " + std::to_string(r.pkt.qos) + " above announced Maximum QoS");
+            if (r.pkt.retain && prop_num(cc, P_RETAIN_AVAIL, 1) == 0) fail("C15", "retain_not_available", "conn " + std::to_string(r.conn) + ": retained PUBLISH although Retain Available = 0");
+            if (auto* a = find_prop(r.pkt.props, P_TOPIC_ALIAS)) if (a->num > prop_num(cc, P_TOPIC_ALIAS_MAX, 0)) fail("C15", "topic_alias_exceeds_maximum", "conn " + std::to_string(r.conn) + ": Topic Alias " + std::to_string(a->num) + " above announced maximum");
+        }
+    }
+}
+
+// ------------------------------------------------------------------ C18
+void Ctx::c18() {
+    if (hostile_run) return;
+    auto& B = s.broker;
+    // CONNACK as logged by the client == CONNACK the broker encoded
+    std::vector<const bk::SentPkt*> connacks;
+    for (auto& sp : B.sent) if (sp.pkt.type == CONNACK && !sp.hostile && sp.delivered_seq) connacks.push_back(&sp);
+    std::sort(connacks.begin(), connacks.end(), [](auto* a, auto* b) { return a->delivered_seq < b->delivered_seq; });
+    size_t ci = 0;
+    for (auto& l : s.logs) {
+        if (l.k != LogRec::connack) continue;
+        bool matched = false;
+        for (size_t k = ci; k < connacks.size(); ++k) {
+            auto* sp = connacks[k];
+            if (sp->delivered_seq > l.seq) break;
+            if (sp->pkt.rc == l.rc && sp->pkt.session_present == l.session_present && props_equal(sp->pkt.props, l.props)) { matched = true; ci = k + 1; break; }
+        }
+        if (!matched) {
+            // the most recent delivered CONNACK, for the message
+            const bk::SentPkt* last = nullptr;
+            for (auto* sp : connacks) if (sp->delivered_seq <= l.seq) last = sp;
+            fail("C18", "connack_decoded_differently", "client reported CONNACK rc=" + std::to_string(l.rc) + " sp=" + std::to_string(l.session_present) + " " + props_str(l.props) +
+                 " at seq " + std::to_string(l.seq) + "; broker encoded " + (last ? packet_str(last->pkt) : std::string("none")));
+        }
+    }
+    // connack_properties() as seen by the application == the properties of the last successful CONNACK logged
+    for (auto& o : s.ops) {
+        const LogRec* last = nullptr;
+        for (auto& l : s.logs) if (l.k == LogRec::connack && l.seq < o.init_seq) last = &l;
+        if (!last || multi_gen_active(last->seq, o.init_seq) || boundary_between(last->seq, o.init_seq)) continue;
+        if (!props_equal(o.connack_snapshot, last->props))
+            fail("C18", "connack_properties_differ", opstr(o) + ": connack_properties() returned " + props_str(o.connack_snapshot) + " but the last CONNACK carried " + props_str(last->props));
+    }
+    // server DISCONNECT as logged
+    {
+        std::vector<const bk::SentPkt*> ds;
+        for (auto& sp : B.sent) if (sp.pkt.type == DISCONNECT && !sp.hostile && sp.delivered_seq) ds.push_back(&sp);
+        for (auto& l : s.logs) {
+            if (l.k != LogRec::disconnect) continue;
+            bool ok = false;
+            for (auto* sp : ds) if (sp->delivered_seq <= l.seq && sp->pkt.rc == l.rc && props_equal(sp->pkt.props, l.props)) ok = true;
+            if (!ok) fail("C18", "disconnect_decoded_differently", "client reported server DISCONNECT rc=" + std::to_string(l.rc) + " " + props_str(l.props) + " which the broker never sent like that");
+        }
+        // and every delivered server DISCONNECT whose connection the client was still reading is reported
+    }
+    // authenticator inputs == Authentication Data of the broker's AUTH / CONNACK
+    for (auto& l : s.logs) {
+        if (l.k != LogRec::auth_step || l.step == 0) continue;
+        bool ok = false;
+        for (auto& sp : B.sent) {
+            if (sp.hostile || !sp.delivered_seq || sp.delivered_seq > l.seq) continue;
+            if (sp.pkt.type != AUTH && sp.pkt.type != CONNACK) continue;
+            auto* d = find_prop(sp.pkt.props, P_AUTH_DATA);
+            if ((d ? d->s1 : std::string()) == l.s1) ok = true;
+        }
+        if (!ok) fail("C18", "auth_data_differs", "authenticator step " + std::to_string(l.step) + " received data '" + l.s1 + "' that no AUTH/CONNACK of the broker carried");
+    }
+    // a well-formed packet is never treated as malformed
+    for (auto& r : B.recv) {
+        if (!r.decode_err.empty() || r.pkt.type != DISCONNECT) continue;
+        if (r.pkt.rc != 0x81 && r.pkt.rc != 0x82) continue;
+        if (conn_hostile(r.conn)) continue;
+        auto* rs = find_prop(r.pkt.props, P_REASON_STRING);
+        // what did the broker send last on this connection?
+        std::string lastp;
+        if (auto* bc = B.bc(r.conn)) for (int si : bc->sent) if (B.sent[si].delivered_seq && B.sent[si].delivered_seq < r.seq) lastp = packet_str(B.sent[si].pkt);
+        fail("C18", "wellformed_treated_as_malformed", "conn " + std::to_string(r.conn) + ": client sent DISCONNECT rc=" + std::to_string(r.pkt.rc) + " (" + (rs ? rs->s1 : std::string()) +
+             ") although every packet of the broker was well-formed; last delivered: " + lastp);
+    }
+}
+
+// ------------------------------------------------------------------ C19
+void Ctx::c19() {
+    if (!hostile_run) return;
+    auto& B = s.broker;
+    // What a correct client can recognise on each connection: frame the emitted byte stream with the reference framer
+    // and decode each frame strictly. Only those packets can be witnesses of a successful completion.
+    struct WF { int conn; Packet p; size_t off_end; uint64_t delivered_seq; };
+    std::vector<WF> wf;
+    for (auto& bcp : B.conns) {
+        if (!bcp) continue;
+        Framer fr; size_t pos = 0;
+        std::vector<std::pair<size_t, uint64_t>> delivered;     // (off_end, delivered_seq) of sent packets, to date frames
+        std::vector<int> order;
+        for (int si : bcp->sent) if (B.sent[si].seq) order.push_back(si);        // seq == 0: never left the broker
+        std::sort(order.begin(), order.end(), [&](int a, int b) { return B.sent[a].seq < B.sent[b].seq; });   // actual emission order
+        for (int si : order) {
+            auto& sp = B.sent[si];
+            std::string bytes = sp.raw.substr(0, sp.emitted_len);
+            auto frames = fr.feed(bytes.data(), bytes.size());
+            pos += bytes.size();
+            for (auto& f : frames) {
+                Packet p;
+                if (decode_strict(f, p, true).empty()) wf.push_back({bcp->conn, p, pos, sp.delivered_seq});
+            }
+            if (!fr.error.empty()) break;
+        }
+    }
+    for (auto& o : s.ops) {
+        const Done* d = done(o);
+        if (!d || d->c.ec) continue;
+        uint8_t want = 0; const std::vector<int>* rs = nullptr;
+        if (o.kind == OpKind::publish && o.qos == 1) { want = PUBACK; rs = pub_receipts.count(o.id) ? &pub_receipts[o.id] : nullptr; }
+        else if (o.kind == OpKind::publish && o.qos == 2) { want = PUBCOMP; rs = pub_receipts.count(o.id) ? &pub_receipts[o.id] : nullptr; }
+        else if (o.kind == OpKind::subscribe) { want = SUBACK; rs = sub_receipts.count(o.id) ? &sub_receipts[o.id] : nullptr; }
+        else if (o.kind == OpKind::unsubscribe) { want = UNSUBACK; rs = unsub_receipts.count(o.id) ? &unsub_receipts[o.id] : nullptr; }
+        else continue;
+        if (!any_hostile_between(o.init_seq, d->seq)) continue;      // judged by C01/C14
+        std::set<uint16_t> pids;
+        if (rs) for (int ri : *rs) pids.insert(B.recv[ri].pkt.pid);
+        bool ok = false;
+        for (auto& w : wf) {
+            if (!pids.count(w.p.pid)) continue;
+            if (w.p.type == want || (want == PUBCOMP && w.p.type == PUBREC && w.p.rc >= 0x80)) {
+                if ((want == SUBACK || want == UNSUBACK) && w.p.rcs.size() != d->c.rcs.size()) continue;
+                ok = true;
+            }
+        }
+        if (!ok)
+            fail("C19", "success_without_wellformed_ack", opstr(o) + " completed successfully during a hostile window, but no well-formed " + ptype_name(want) +
+                 " for its packet identifier is contained in what the broker sent");
+    }
+}
+
+} // namespace app
